@@ -17,8 +17,8 @@ def LNPERMS(d: A[int, 1], n: int) -> float:
 
 
 @contract("mchap.jitutils.ln_equivalent_permutations", machine_ints=True, props=["C05", "C01", "C09"])
-def ln_equivalent_permutations(dosage: A[i1, 1]) -> float:
-    requires(forall(0, len(dosage), lambda i: dosage[i] >= 0))
+def ln_equivalent_permutations(dosage: A[iN, 1]) -> float:
+    requires(forall(0, len(dosage), lambda i: dosage[i] >= 0 and dosage[i] <= 127))
     ensures(result == LNPERMS(dosage, len(dosage)), finite(result))
     with entry():
         lemma_isum_nonneg(dosage, 0, len(dosage))
